@@ -189,6 +189,74 @@ Section Iso.
   Qed.
 End Iso.
 
+
+(* ---- a cache over an upstream that hands out SHARED objects (e.g. a raw ListDataset, or map(lambda k: table[k])):
+   the first access computes the example = the upstream's own object, stores a pickled blob and returns that very
+   object; from then on the example is served from the blob, so it is frozen whatever is mutated afterwards ---- *)
+Section LazyCache.
+  Variable V : Type.
+  Inductive lslot := LBlob (v : V) | LLazy (a : nat).          (* cached blob | not yet cached: upstream object at a *)
+  Record lstate := mkL { lheap : list V; lstorage : list lslot }.
+  Definition linit (upstream : list V) : lstate := mkL upstream (map LLazy (seq 0 (length upstream))).
+  Inductive lop := LRead (i : nat) | LMutate (h : nat) (v : V).   (* h may be ANY object, upstream's included *)
+  Inductive lout := LVal (h : nat) (v : V) | LNone.
+  Fixpoint lset {A} (l : list A) (i : nat) (a : A) : list A :=
+    match l, i with [], _ => [] | _ :: r, O => a :: r | x :: r, S i' => x :: lset r i' a end.
+  Definition lstep (s : lstate) (o : lop) : lstate * lout :=
+    match o with
+    | LRead i =>
+        match nth_error (lstorage s) i with
+        | Some (LBlob v) => (mkL (lheap s ++ [v]) (lstorage s), LVal (length (lheap s)) v)        (* pickle.loads: fresh object *)
+        | Some (LLazy a) => match nth_error (lheap s) a with
+                            | Some v => (mkL (lheap s) (lset (lstorage s) i (LBlob v)), LVal a v)   (* returns the computed object itself *)
+                            | None => (s, LNone)
+                            end
+        | None => (s, LNone)
+        end
+    | LMutate h v => (mkL (lset (lheap s) h v) (lstorage s), LNone)
+    end.
+  Fixpoint lrun (s : lstate) (ops : list lop) : lstate * list lout :=
+    match ops with [] => (s, []) | o :: r => let '(s1, x) := lstep s o in let '(s2, xs) := lrun s1 r in (s2, x :: xs) end.
+
+  Lemma lset_length {A} (l : list A) i a : length (lset l i a) = length l.
+  Proof. revert i; induction l as [|x l IH]; intros [|i]; simpl; auto. Qed.
+  Lemma lset_same {A} (l : list A) i a : i < length l -> nth_error (lset l i a) i = Some a.
+  Proof. revert i; induction l as [|x l IH]; intros [|i] H; simpl in *; try lia; auto. apply IH. lia. Qed.
+  Lemma lset_other {A} (l : list A) i j a : i <> j -> nth_error (lset l i a) j = nth_error l j.
+  Proof. revert i j; induction l as [|x l IH]; intros [|i] [|j] H; simpl; auto; congruence. Qed.
+
+  Definition frozen (s : lstate) (i : nat) (v : V) : Prop := nth_error (lstorage s) i = Some (LBlob v).
+
+  Lemma frozen_step s o i v : frozen s i v -> frozen (fst (lstep s o)) i v.
+  Proof.
+    unfold frozen. intros H. destruct o as [j|h w]; simpl.
+    - destruct (nth_error (lstorage s) j) as [[w|a]|] eqn:E; simpl; auto.
+      destruct (nth_error (lheap s) a) as [w|] eqn:E2; simpl; auto.
+      destruct (Nat.eq_dec j i) as [->|N]; [congruence|]. rewrite lset_other by exact N. exact H.
+    - exact H.
+  Qed.
+  Lemma frozen_run ops : forall s i v, frozen s i v -> frozen (fst (lrun s ops)) i v.
+  Proof.
+    induction ops as [|o ops IH]; intros s i v H; simpl; auto.
+    pose proof (frozen_step s o i v H) as H1. destruct (lstep s o) as [s1 x]. simpl in H1.
+    specialize (IH s1 i v H1). destruct (lrun s1 ops) as [s2 xs]. exact IH.
+  Qed.
+  (* the first access freezes the example ... *)
+  Theorem first_access_freezes s i h v : lstep s (LRead i) = (fst (lstep s (LRead i)), LVal h v) -> frozen (fst (lstep s (LRead i))) i v.
+  Proof.
+    unfold frozen. simpl. destruct (nth_error (lstorage s) i) as [[w|a]|] eqn:E; simpl.
+    - intros H. inversion H; subst. exact E.
+    - destruct (nth_error (lheap s) a) as [w|] eqn:E2; simpl; intros H; inversion H; subst.
+      apply lset_same. apply nth_error_Some. congruence.
+    - intros H; inversion H.
+  Qed.
+  (* ... and a frozen example is served unchanged after ANY history of reads and mutations of ANY object *)
+  Theorem frozen_reads s ops i v : frozen s i v -> exists h, snd (lstep (fst (lrun s ops)) (LRead i)) = LVal h v.
+  Proof.
+    intros H. pose proof (frozen_run ops s i v H) as F. unfold frozen in F. simpl. rewrite F. simpl. eauto.
+  Qed.
+End LazyCache.
+
 (* copy mode does depend on the original container (documented): a witness *)
 Example copy_mode_sees_original_mutation :
   snd (irun nat (iinit nat Copy [10; 20]) [IMutateOriginal nat 0 99; IRead nat 0]) = [INone nat; IVal nat 2 99].
